@@ -537,6 +537,7 @@ type PureSpec struct {
 	Body    Expr
 	Src     string
 	Pkg     string
+	Opaque  bool
 }
 
 type GhostSpec struct {
@@ -593,7 +594,7 @@ func pkgKey(pkg, name string) string { return pkg + "::" + name }
 
 var clauseKeywords = map[string]bool{
 	"func": true, "requires": true, "ensures": true, "assumes": true, "step": true, "globalinit": true, "modifies": true, "loop": true,
-	"pure": true, "property": true, "ghost": true, "lemma": true, "lockmode": true,
+	"pure": true, "opaque": true, "property": true, "ghost": true, "lemma": true, "lockmode": true,
 	"at": true, "trusted": true, "safety": true, "end": true, "lpre": true, "lpost": true,
 	"lockdefault": true, "writers": true, "allowread": true, "monitor": true, "rely": true, "lockdomain": true, "immutable": true, "unguarded": true, "guardedmap": true, "guardedmem": true,
 }
@@ -854,6 +855,17 @@ func (c *Contracts) parseFile(path, pkg string) error {
 				return err
 			}
 			ps.Pkg = pkg
+			c.Pures[pkgKey(pkg, ps.Name)] = ps
+		case "opaque":
+			// opaque name(a T, b T) bool = expr: a pure predicate whose applications stay function symbols in the
+			// queries (the definition is a triggered axiom); equal arguments over an unchanged heap are then equal by
+			// congruence without unfolding quantifiers
+			ps, err := parsePure(rest, where)
+			if err != nil {
+				return err
+			}
+			ps.Pkg = pkg
+			ps.Opaque = true
 			c.Pures[pkgKey(pkg, ps.Name)] = ps
 		case "lemma":
 			// lemma name(a T, b T)
